@@ -250,7 +250,18 @@ def check_leaf(item):
                         ok, why = False, "two values are appended on one path"
         if apps and vals != {want}:
             ok, why = False, f"appends {sorted(vals)} instead of {want}"
-    return [Obligation(PROP, f"{name}|param/leaf", "param/leaf", fi.short, PROVED if ok and n else REFUTED,
+    extra = []
+    if "Array" in ci.short:
+        # the appended list is the raw constructor arguments: its elements are not restricted to plain data
+        spec = ex.slot_spec(ci, "original_value") or ""
+        plain = "value" not in spec and "any" not in spec and "Node" not in spec
+        extra.append(Obligation(PROP, f"{name}|param/plain-data|original_value", "param/plain-data", fi.short,
+                                PROVED if plain else REFUTED,
+                                detail="the list appended by Array.get_sql contains plain data only",
+                                reason="" if plain else "original_value holds the raw constructor arguments, which may "
+                                                        "be terms (Array(t.a, 1))",
+                                witness={"family": "call", "oracle": "plain_data", "args": ["terms.Array.get_sql"]}))
+    return extra + [Obligation(PROP, f"{name}|param/leaf", "param/leaf", fi.short, PROVED if ok and n else REFUTED,
                        detail=f"appends exactly {want}, at most once per render, and only when a parameterizer is "
                               f"installed ({n} returning paths)", reason=why,
                        witness={"family": "call", "oracle": "param_equivalence", "args": [ci.short]})]
